@@ -802,6 +802,83 @@ func c11Run(w *W) {
 			}
 		}
 	})
+	// chains and long operands: one operator repeated n = 1 … 24 times (left- and right-associative chains, unary and
+	// parenthesis nesting, conditional chains), constants of 1 … 24 digits (decimal, octal, hexadecimal)
+	chainEnvs := c11Envs([]string{"5"})
+	for n := 1; n <= 24; n++ {
+		if !w.Mine() || w.TimeUp() {
+			continue
+		}
+		w.Announce(fmt.Sprintf("chains of length %d", n))
+		var trees []*axNode
+		for _, op := range []string{"+", "-", "*", "<<", "|", "&&", "==", "<", "%"} {
+			for _, leaf := range []*axNode{axNum("1"), axNum("2"), axVar("x"), axNum("3")} {
+				t := leaf
+				for i := 0; i < n; i++ {
+					k := "bin"
+					switch op {
+					case "&&":
+						k = "land"
+					}
+					t = &axNode{K: k, Op: op, Kids: []*axNode{t, leaf}}
+				}
+				trees = append(trees, t)
+				// the same chain nested to the right
+				r := leaf
+				for i := 0; i < n; i++ {
+					k := "bin"
+					if op == "&&" {
+						k = "land"
+					}
+					r = &axNode{K: k, Op: op, Kids: []*axNode{leaf, r}}
+				}
+				trees = append(trees, r)
+			}
+		}
+		for _, op := range c11Unary {
+			t := axVar("x")
+			for i := 0; i < n; i++ {
+				t = &axNode{K: "un", Op: op, Kids: []*axNode{t}}
+			}
+			trees = append(trees, t)
+		}
+		// x = y = x = … = 7 and x += y += …
+		for _, op := range []string{"=", "+=", "<<="} {
+			t := axNum("7")
+			for i := 0; i < n; i++ {
+				v := "x"
+				if i%2 == 1 {
+					v = "y"
+				}
+				t = &axNode{K: "asg", Op: op, Kids: []*axNode{axVar(v), t}}
+			}
+			trees = append(trees, t)
+		}
+		// 0 ? 1 : 0 ? 1 : … : 2   and   1 ? 1 ? … : 0 : 0
+		t := axNum("2")
+		for i := 0; i < n; i++ {
+			t = &axNode{K: "cond", Op: "?:", Kids: []*axNode{axNum("0"), axNum("1"), t}}
+		}
+		trees = append(trees, t)
+		t = axNum("2")
+		for i := 0; i < n; i++ {
+			t = &axNode{K: "cond", Op: "?:", Kids: []*axNode{axNum("1"), t, axNum("0")}}
+		}
+		trees = append(trees, t)
+		// constants with n digits
+		for _, pre := range []string{"", "0", "0x", "00"} {
+			for _, d := range []string{"1", "7", "9", "f"} {
+				if d == "f" && pre != "0x" {
+					continue
+				}
+				trees = append(trees, axNum(pre+strings.Repeat(d, n)))
+			}
+		}
+		for _, tr := range trees {
+			w.Count("chains_and_long_operands", 1)
+			c11Explore(w, tr, chainEnvs, 2)
+		}
+	}
 	if w.thorough() {
 		// depth 2, complete, over a small leaf set (binary/logical/assign roots)
 		small := []*axNode{axNum("0"), axNum("1"), axNum("7"), axVar("x")}
@@ -829,7 +906,7 @@ func init() {
 		id:    "C11",
 		level: "model_checking",
 		rule: "every expression tree of depth ≤ 1 over all operators and the 16 operands × 64 environments (x,y ∈ {unset,'',5,010,0x1F,abc,MinInt64,-1}) in 4 layouts; " +
-			"every depth-1 tree over 8 operands placed in every depth-1 context (one-hole depth 2); every depth-1 tree over 9 operands (faulty ones included) as the operand C skips in 0&&h, 1||h, 1?0:h, 0?h:1 × 4 evaluated assignments/increments × 6 combining contexts (a slice of depth 3); thorough adds the complete depth-2 product for binary/logical roots over 4 operands. " +
+			"every depth-1 tree over 8 operands placed in every depth-1 context (one-hole depth 2); every depth-1 tree over 9 operands (faulty ones included) as the operand C skips in 0&&h, 1||h, 1?0:h, 0?h:1 × 4 evaluated assignments/increments × 6 combining contexts (a slice of depth 3); chains of one operator repeated n = 1…24 times (both associativities, unary and conditional chains, assignment chains) and constants of 1…24 digits; thorough adds the complete depth-2 product for binary/logical roots over 4 operands. " +
 			"Trees C leaves undefined (unsequenced modify/access, shift ≥ 64, MinInt64/-1) are detected and excluded. Non-trivial = the model faults or changes a variable",
 		assume: []string{"reference evaluator c11.go (tree walking, int64 wrap-around) is trusted; cross-checked against bash $(( )) at design time",
 			"which of several errors is reported is not compared (C06 covers schedule dependence); only 'an ArithExprError' and the variable store at the fault"},
